@@ -94,6 +94,7 @@ fn real_main(args: &[String]) -> i32 {
             driver::replay_main(&engs, &args[2])
         }
         "oneshot" => c16::oneshot_main(),
+        "batch" => batch_main(),
         "call" => {
             // debugging aid: one call described by a JSON file {cfg, prng_seed?, file, source, fs?, faults?}
             let v: serde_json::Value = serde_json::from_str(&std::fs::read_to_string(&args[2]).unwrap()).unwrap();
@@ -133,4 +134,50 @@ fn real_main(args: &[String]) -> i32 {
         }
         _ => usage(),
     }
+}
+
+/// `simrw batch`: serve the real rewriter to the Node engine. stdin: {"jobs":[{cfg, prng_seed, file, code, fs?}]}
+/// stdout: {"results":[{"ok": <what Rewriter::rewrite serialises>} | {"err": "<message>"} | {"panic": "..."}]}
+fn batch_main() -> i32 {
+    use std::io::Read;
+    exec::install_quiet_panic_hook();
+    c16::install_log_sink();
+    let mut s = String::new();
+    std::io::stdin().read_to_string(&mut s).ok();
+    let v: serde_json::Value = match serde_json::from_str(&s) {
+        Ok(v) => v,
+        Err(e) => {
+            eprintln!("bad batch request: {e}");
+            return 2;
+        }
+    };
+    let mut out = Vec::new();
+    let empty = vec![];
+    for job in v["jobs"].as_array().unwrap_or(&empty) {
+        let fs: fsim::FsSpec = job.get("fs").cloned().and_then(|x| serde_json::from_value(x).ok()).unwrap_or_default();
+        let seed = job["prng_seed"].as_u64().unwrap_or(1);
+        let cfg = match exec::make_config(&job["cfg"], seed) {
+            Ok(c) => c,
+            Err(o) => {
+                out.push(serde_json::json!({"panic": format!("{:?}", o)}));
+                continue;
+            }
+        };
+        let reader = fsim::SimFileReader::new(&fs, &fsim::FaultPlan::clean());
+        let code = job["code"].as_str().unwrap_or("").to_string();
+        let file = job["file"].as_str().unwrap_or("").to_string();
+        let r = std::panic::catch_unwind(std::panic::AssertUnwindSafe(|| {
+            native_iast_rewriter::verif_hooks::rewrite_with_reader(&cfg, code, &file, &reader)
+        }));
+        match r {
+            Ok(Ok(res)) => out.push(serde_json::json!({"ok": serde_json::to_value(&res).unwrap(), "prefix": cfg.local_var_prefix})),
+            Ok(Err(e)) => out.push(serde_json::json!({"err": e})),
+            Err(_) => {
+                let (m, l) = exec::take_last_panic().unwrap_or_default();
+                out.push(serde_json::json!({"panic": format!("{l}: {m}")}));
+            }
+        }
+    }
+    println!("{}", serde_json::json!({"results": out}));
+    0
 }
